@@ -26,7 +26,12 @@ func (*urlencodedBodyProcessor) ProcessRequest(reader io.Reader, v plugintypes.T
 	values := urlutil.ParseQuery(b, '&')
 	argsCol := v.ArgsPost()
 	for k, vs := range values {
-		argsCol.Set(k, vs)
+		// Add, not Set: names that differ only in letter case are distinct map keys here but
+		// share one entry in the (case-insensitive) collection, where Set would replace the values
+		// of the name seen first.
+		for _, v := range vs {
+			argsCol.Add(k, v)
+		}
 	}
 	v.RequestBody().(*collections.Single).Set(b)
 	v.RequestBodyLength().(*collections.Single).Set(strconv.Itoa(len(b)))
